@@ -348,8 +348,8 @@ func (fx *FnExec) applyContract(st *State, in *ssa.Call, fn *ssa.Function, fc *F
 	// the callee's function-local ghosts are existentially quantified for the caller
 	for _, g := range fc.Ghosts {
 		key := "fg:" + fc.Key + ":" + g
-		pre.ghost[key] = eng.fresh(st, "ghostpre_"+g, "(Array Int Int)")
-		st.ghost[key] = eng.fresh(st, "ghostres_"+g, "(Array Int Int)")
+		pre.ghost[key] = eng.fresh(st, "ghostpre_"+g, fc.ghostSort(g))
+		st.ghost[key] = eng.fresh(st, "ghostres_"+g, fc.ghostSort(g))
 	}
 	post := &Env{fx: fx, cur: st, old: pre, vars: map[string]Val{}, pkg: env.pkg, fc: fc}
 	for kx, v := range env.vars {
@@ -369,6 +369,9 @@ func (fx *FnExec) applyContract(st *State, in *ssa.Call, fn *ssa.Function, fc *F
 	}
 	for _, c := range fc.Ensures {
 		if f, ok := trc(post, c); ok {
+			if c.Trusted {
+				eng.assumptions["TRUSTED postcondition "+c.Func+"/"+c.Name+": assumed by callers, not proved from the body (see the bounded check of that function)"] = true
+			}
 			st.assume(f)
 		}
 	}
@@ -497,7 +500,7 @@ func (eng *Engine) invokeTouch(c *ssa.CallCommon, t map[string]bool) {
 	rt := c.Value.Type().String()
 	switch {
 	case strings.HasSuffix(rt, "golang-set.Set"):
-		eng.regComp(setHeap, "(Array Int (Array Str Bool))")
+		eng.regSet()
 		switch c.Method.Name() {
 		case "Add", "Union", "Difference", "Clone", "Intersect":
 			t[setHeap] = true
@@ -543,7 +546,7 @@ func (eng *Engine) externTouch(fn *ssa.Function, t map[string]bool) {
 	case "fmt.Errorf", "fmt.Sprintf", "github.com/deckarep/golang-set.NewSet":
 		t["@alloc"] = true
 		if strings.HasSuffix(fn.String(), "NewSet") {
-			eng.regComp(setHeap, "(Array Int (Array Str Bool))")
+			eng.regSet()
 			t[setHeap] = true
 		}
 	case "fmt.Printf", "fmt.Println", "fmt.Fprintf", "log.Println", "log.Printf":
